@@ -1,6 +1,6 @@
 (* C16 — slicing, concatenating, pickling and dict-converting samples keep rows aligned. *)
 From Coq Require Import Reals List Bool Arith.
-From AV Require Import Lib.Vec Lib.Soa Gen.Rows Model.SamplesAlg Proofs.C16.
+From AV Require Import Lib.Vec Lib.Soa Gen.Rows Model.SamplesAlg Proofs.C16 Proofs.C02 Proofs.C16ess.
 Import ListNotations.
 Local Open Scope nat_scope.
 
@@ -40,6 +40,14 @@ Theorem C16_select_unweighted_carries_evidence : forall {X} (x : list X) ll lp l
   /\ samples_getitem_unweighted_log_evidence_error x ll lp le lee idx dX = lee.
 Proof. intros. apply gen_samples_getitem_unweighted. Qed.
 
+(* ... and the effective sample size a selection reports is that of ITS OWN rows: (sum w)^2 / sum w^2 over the selected
+   weights, between 1 and the number of selected rows (the selection is a weighted sample set in the sense of C02) *)
+Theorem C16_select_ess_of_selection : forall {X} (x : list X) ll lp lq lw w le lee idx dX,
+  select idx lw 0%R <> [] ->
+  samples_getitem_ess x ll lp lq lw w le lee idx dX = ess_of (map exp (select idx lw 0%R))
+  /\ (1 <= samples_getitem_ess x ll lp lq lw w le lee idx dX <= INR (length (select idx lw 0%R)))%R.
+Proof. intros. now apply samples_getitem_ess_spec. Qed.
+
 (* row j of a selection is row idx_j of the source, in all fields at once (any index kind) *)
 Theorem C16_rows_aligned : forall (X V : Type) (dX : X) (dV : V) i (s : sset X V),
   rows_of X V dX dV (getitem X V dX dV i s) = map (row_at X V dX dV s) (idx_of (length (a_x _ _ s)) i).
@@ -64,6 +72,7 @@ Proof. exact ops_refine_top. Qed.
 
 Print Assumptions C16_select_uniform.
 Print Assumptions C16_select_unweighted_carries_evidence.
+Print Assumptions C16_select_ess_of_selection.
 Print Assumptions C16_rows_aligned.
 Print Assumptions C16_concat_partition.
 Print Assumptions C16_sequences.
